@@ -1297,4 +1297,305 @@ theorem qrLoop_upper (A : Matrix ℝ) (hw : A.columns ≤ A.rows) :
 
 end qr
 
+/-! ### positive definite inputs: every pivot is positive -/
+
+section pivots
+open scoped EasyMl.RealModel
+
+/-- **Pivots of a positive definite matrix are positive.**  If the leading `(i+1) × (i+1)` block
+    of a positive definite `S` is `T·diag(d)·Tᵀ` (on the lower triangle) for a lower triangular
+    table `t` with non-zero diagonal, every `d a`, `a ≤ i`, is positive. -/
+theorem pivot_pos {n : ℕ} (S : _root_.Matrix (Fin n) (Fin n) ℝ) (hS : S.PosDef) (i : ℕ) (hi : i < n)
+    (t : ℕ → ℕ → ℝ) (d : ℕ → ℝ)
+    (hlow : ∀ a b, a < b → b ≤ i → t a b = 0) (hdiag : ∀ a, a ≤ i → t a a ≠ 0)
+    (hid : ∀ a b (ha : a ≤ i) (hb : b ≤ a),
+      S ⟨a, by omega⟩ ⟨b, by omega⟩ = ∑ c ∈ range (i + 1), t a c * d c * t b c) :
+    ∀ a, a ≤ i → 0 < d a := by
+  have hk : i + 1 ≤ n := hi
+  let T : _root_.Matrix (Fin (i + 1)) (Fin (i + 1)) ℝ := fun a b => t a b
+  let dd : Fin (i + 1) → ℝ := fun a => d a
+  let S' := S.submatrix (Fin.castLE hk) (Fin.castLE hk)
+  have hS' : S'.PosDef := hS.submatrix (Fin.castLE_injective hk)
+  have hentry : ∀ a b : Fin (i + 1), (T * Matrix.diagonal dd * T.transpose) a b
+      = ∑ c ∈ range (i + 1), t a c * d c * t b c := by
+    intro a b
+    rw [Matrix.mul_apply, ← Fin.sum_univ_eq_sum_range (fun c => t a c * d c * t b c) (i + 1)]
+    apply Finset.sum_congr rfl
+    intro c _
+    rw [Matrix.mul_diagonal, Matrix.transpose_apply]
+  have hsymS : ∀ a b : Fin (i + 1), S' a b = S' b a := by
+    intro a b
+    have := hS'.1
+    have h2 := congrFun (congrFun this b) a
+    simpa [Matrix.conjTranspose_apply] using h2
+  have heq : S' = T * Matrix.diagonal dd * T.transpose := by
+    ext a b
+    by_cases hba : (b : ℕ) ≤ a
+    · rw [hentry]
+      exact hid a b (by have := a.isLt; omega) hba
+    · have hab : (a : ℕ) ≤ b := by omega
+      rw [hsymS, hentry]
+      have := hid b a (by have := b.isLt; omega) hab
+      rw [show S' b a = S ⟨b, by have := b.isLt; omega⟩ ⟨a, by have := a.isLt; omega⟩ from rfl, this]
+      exact sum_congr rfl (fun c _ => by ring)
+  have hdet : T.det = ∏ a, T a a :=
+    Matrix.det_of_isLowerTriangular T (fun a b hab => hlow a b hab (by have := b.isLt; omega))
+  have hunit : IsUnit T := by
+    rw [Matrix.isUnit_iff_isUnit_det, hdet, isUnit_iff_ne_zero]
+    exact Finset.prod_ne_zero_iff.mpr (fun a _ => hdiag a (by have := a.isLt; omega))
+  have hD : (Matrix.diagonal dd).PosDef := by
+    have h1 : (T * Matrix.diagonal dd * star T).PosDef := by
+      rw [Matrix.star_eq_conjTranspose, Matrix.conjTranspose_eq_transpose_of_trivial, ← heq]
+      exact hS'
+    exact (Matrix.IsUnit.posDef_star_right_conjugate_iff hunit).mp h1
+  intro a ha
+  have := hD.diag_pos (i := (⟨a, by omega⟩ : Fin (i + 1)))
+  simpa [dd] using this
+
+
+theorem cholOK_pos {A ℓ : ℕ → ℕ → ℝ} {a : ℕ} (h : CholEntryOK A ℓ a a) : 0 < ℓ a a := by
+  unfold CholEntryOK at h
+  rw [if_pos rfl] at h
+  obtain ⟨h1, h2⟩ := h
+  rw [h2]
+  have : ¬ (A a a - ∑ k ∈ range a, ℓ a k * ℓ a k ≤ 0) := by
+    intro hle
+    have := (RealModel.le_eq _ _).mpr hle
+    rw [h1] at this; exact Bool.false_ne_true this
+  exact Real.sqrt_pos.mpr (not_le.mp this)
+
+theorem cholOK_identity {A ℓ : ℕ → ℕ → ℝ} {a b : ℕ} (h : CholEntryOK A ℓ a b)
+    (hbb : a ≠ b → ℓ b b ≠ 0) : ∑ c ∈ range (b + 1), ℓ a c * ℓ b c = A a b := by
+  rw [sum_range_succ]
+  unfold CholEntryOK at h
+  by_cases hab : a = b
+  · subst hab
+    rw [if_pos rfl] at h
+    obtain ⟨h1, h2⟩ := h
+    have hnn : 0 ≤ A a a - ∑ k ∈ range a, ℓ a k * ℓ a k := by
+      by_contra hneg
+      have hle : A a a - ∑ k ∈ range a, ℓ a k * ℓ a k ≤ 0 := by linarith
+      have := (RealModel.le_eq _ _).mpr hle
+      rw [h1] at this; exact Bool.false_ne_true this
+    have hsq' : ℓ a a * ℓ a a = A a a - ∑ k ∈ range a, ℓ a k * ℓ a k := by
+      rw [h2]; exact Real.mul_self_sqrt hnn
+    linarith
+  · rw [if_neg hab] at h
+    have := hbb hab
+    rw [h]
+    field_simp
+    ring
+
+/-- With a positive definite input the diagonal step of row `i` meets a positive pivot. -/
+theorem chol_pivot_pos {n : ℕ} {A L : Matrix ℝ} {i : ℕ}
+    (hPD : (toMat n n A).PosDef) (hinv : CholInv n A L i i) (hi : i < n) :
+    0 < get A i i - cholSum L i i := by
+  have hposd : ∀ a, a < i → 0 < get L a a := fun a ha =>
+    cholOK_pos (hinv.ok a a (by omega) ⟨le_refl a, Or.inl ha⟩)
+  have hident : ∀ a b, a < n → CholDone i i a b → ∑ c ∈ range (b + 1), get L a c * get L b c = get A a b := by
+    intro a b ha hd
+    apply cholOK_identity (hinv.ok a b ha hd)
+    intro hab
+    obtain ⟨h1, h2⟩ := hd
+    exact ne_of_gt (hposd b (by omega))
+  set e := get A i i - cholSum L i i with he
+  let t : ℕ → ℕ → ℝ := fun a b => if a = i ∧ b = i then 1 else get L a b
+  let d : ℕ → ℝ := fun c => if c = i then e else 1
+  have hzero : ∀ a b, a < n → b < n → a < b → get L a b = 0 := by
+    intro a b ha hb hab
+    apply hinv.zero a b ha hb
+    rintro ⟨h1, _⟩; omega
+  have hii : get L i i = 0 := by
+    apply hinv.zero i i hi hi
+    rintro ⟨_, h2⟩; omega
+  have := pivot_pos (toMat n n A) hPD i hi t d ?_ ?_ ?_ i (le_refl i)
+  · simpa [d] using this
+  · intro a b hab hbi
+    simp only [t]
+    rw [if_neg (by omega)]
+    exact hzero a b (by omega) (by omega) hab
+  · intro a hai
+    simp only [t]
+    by_cases h : a = i
+    · rw [if_pos ⟨h, h⟩]; exact one_ne_zero
+    · rw [if_neg (by tauto)]; exact ne_of_gt (hposd a (by omega))
+  · intro a b hai hba
+    rw [toMat_apply]
+    show get A a b = ∑ c ∈ range (i + 1), t a c * d c * t b c
+    -- the terms beyond `b` vanish
+    have hsplit : ∑ c ∈ range (i + 1), t a c * d c * t b c = ∑ c ∈ range (b + 1), t a c * d c * t b c := by
+      symm
+      apply sum_subset (range_subset_range.mpr (by omega))
+      intro c hc hc'
+      have hc1 := mem_range.mp hc
+      have hc2 : ¬ c < b + 1 := fun hh => hc' (mem_range.mpr hh)
+      have : t b c = 0 := by
+        simp only [t]
+        rw [if_neg (by omega)]
+        exact hzero b c (by omega) (by omega) (by omega)
+      rw [this, mul_zero]
+    rw [hsplit]
+    by_cases hbi : b = i
+    · -- the pivot itself
+      have hai' : a = i := by omega
+      rw [hbi, hai', sum_range_succ]
+      have h1 : ∑ c ∈ range i, t i c * d c * t i c = cholSum L i i := by
+        rw [cholSum_eq]
+        apply sum_congr rfl
+        intro c hc
+        have := mem_range.mp hc
+        simp only [t, d]
+        rw [if_neg (by omega), if_neg (by omega)]
+        ring
+      rw [h1]
+      simp only [t, d, and_self, if_true]
+      rw [he]; ring
+    · have h1 : ∑ c ∈ range (b + 1), t a c * d c * t b c = ∑ c ∈ range (b + 1), get L a c * get L b c := by
+        apply sum_congr rfl
+        intro c hc
+        have := mem_range.mp hc
+        simp only [t, d]
+        rw [if_neg (by omega), if_neg (by omega), if_neg (by omega)]
+        ring
+      rw [h1]
+      exact (hident a b (by omega) ⟨hba, by omega⟩).symm
+
+theorem cholEntry_present {n : ℕ} {A L : Matrix ℝ} {i j : ℕ}
+    (hPD : (toMat n n A).PosDef) (hinv : CholInv n A L i j) (hi : i < n) (hj : j ≤ i) :
+    ∃ L', cholEntry A L i j = some L' ∧ CholInv n A L' i (j + 1) := by
+  have hex : ∃ L', cholEntry A L i j = some L' := by
+    unfold cholEntry
+    by_cases hij : i = j
+    · subst hij
+      simp only [if_true]
+      have hp := chol_pivot_pos hPD hinv hi
+      have hb : NumOrd.le (get A i i - cholSum L i i) (0 : ℝ) = false := by
+        cases hbb : NumOrd.le (get A i i - cholSum L i i) (0 : ℝ) with
+        | false => rfl
+        | true => exact absurd ((RealModel.le_eq _ _).mp hbb) (not_le.mpr hp)
+      rw [hb]
+      exact ⟨_, rfl⟩
+    · simp only [hij, if_false]
+      exact ⟨_, rfl⟩
+  obtain ⟨L', h⟩ := hex
+  exact ⟨L', h, cholEntry_inv hinv hi hj h⟩
+
+/-- **Cholesky is present for every positive definite input.** -/
+theorem cholesky_present_aux {A : Matrix ℝ} (hsq : A.rows = A.columns)
+    (hPD : (toMat A.rows A.rows A).PosDef) : ∃ L, cholesky A = some L := by
+  unfold cholesky
+  rw [if_neg (by simpa using hsq), ← hsq]
+  have h0 : CholInv A.rows A (fill A.rows A.rows (0 : ℝ)) 0 0 := by
+    refine ⟨shaped_fill _ _ _, fun a b ha hb _ => get_fill _ _ _ _ _ ha hb, ?_⟩
+    rintro a b _ ⟨_, h2⟩; omega
+  obtain ⟨L, h1, _⟩ := forRange_progress (fun i L => CholInv A.rows A L i 0)
+    (fun i L => cholRow A i L) A.rows _ h0
+    (fun i t hi hP => by
+      obtain ⟨L', h1, h2⟩ := forRange_progress (fun j L => CholInv A.rows A L i j)
+        (fun j L => cholEntry A L i j) (i + 1) t hP
+        (fun j t' hj hP' => cholEntry_present hPD hP' hi (by omega))
+      exact ⟨L', h1, cholRow_inv hP hi h1⟩)
+  exact ⟨L, h1⟩
+
+
+/-- With a positive definite input the pivot of column `j` is positive (so not zero). -/
+theorem ldlt_pivot_pos {n : ℕ} {A L D : Matrix ℝ} {j : ℕ}
+    (hPD : (toMat n n A).PosDef) (hinv : LdltInv n A L D j 0 j) (hj : j < n) :
+    0 < get A j j - ldltSum L D j j := by
+  have hDne : ∀ b, b < j → get D b b ≠ 0 := by
+    intro b hb
+    obtain ⟨h1, h2⟩ := hinv.okD b hb
+    rw [h2]
+    intro h0
+    have := (RealModel.eq_eq _ _).mpr h0
+    rw [h1] at this; exact Bool.false_ne_true this
+  set e := get A j j - ldltSum L D j j with he
+  let t : ℕ → ℕ → ℝ := fun a b => if a = b then 1 else get L a b
+  let d : ℕ → ℝ := fun c => if c = j then e else get D c c
+  have hzero : ∀ a b, a < n → b < n → a < b → get L a b = 0 := by
+    intro a b ha hb hab
+    apply hinv.zeroL a b ha hb
+    rintro ⟨h1, _⟩; omega
+  have := pivot_pos (toMat n n A) hPD j hj t d ?_ ?_ ?_ j (le_refl j)
+  · simpa [d] using this
+  · intro a b hab hbj
+    simp only [t]
+    rw [if_neg (by omega)]
+    exact hzero a b (by omega) (by omega) hab
+  · intro a _
+    simp only [t, if_true]
+    exact one_ne_zero
+  · intro a b haj hba
+    rw [toMat_apply]
+    show get A a b = ∑ c ∈ range (j + 1), t a c * d c * t b c
+    have hsplit : ∑ c ∈ range (j + 1), t a c * d c * t b c = ∑ c ∈ range (b + 1), t a c * d c * t b c := by
+      symm
+      apply sum_subset (range_subset_range.mpr (by omega))
+      intro c hc hc'
+      have hc1 := mem_range.mp hc
+      have hc2 : ¬ c < b + 1 := fun hh => hc' (mem_range.mpr hh)
+      have : t b c = 0 := by
+        simp only [t]
+        rw [if_neg (by omega)]
+        exact hzero b c (by omega) (by omega) (by omega)
+      rw [this, mul_zero]
+    have hpre : ∑ c ∈ range b, t a c * d c * t b c = ∑ c ∈ range b, get L a c * get L b c * get D c c := by
+      apply sum_congr rfl
+      intro c hc
+      have := mem_range.mp hc
+      simp only [t, d]
+      rw [if_neg (by omega), if_neg (by omega), if_neg (by omega)]
+      ring
+    rw [hsplit, sum_range_succ, hpre]
+    by_cases hab : a = b
+    · rw [hab]
+      simp only [t, d, if_true]
+      by_cases hbj : b = j
+      · rw [if_pos hbj, he, ldltSum_eq, hbj]; ring
+      · rw [if_neg hbj, (hinv.okD b (by omega)).2]; ring
+    · have hbj : b < j := by omega
+      have hok := hinv.okL a b (by omega) ⟨hba, Or.inl hbj⟩
+      unfold LdltLOK at hok
+      rw [if_neg hab] at hok
+      simp only [t, d]
+      rw [if_neg hab, if_neg (by omega)]
+      simp only [if_true]
+      rw [hok]
+      have := hDne b hbj
+      field_simp
+      ring
+
+theorem ldltColumn_present {n : ℕ} {A L D : Matrix ℝ} {j : ℕ}
+    (hPD : (toMat n n A).PosDef) (hinv : LdltInv n A L D j 0 j) (hj : j < n) :
+    ∃ s', ldltColumn A n j (L, D) = some s' ∧ LdltInv n A s'.1 s'.2 (j + 1) 0 (j + 1) := by
+  have hp := ldlt_pivot_pos hPD hinv hj
+  have hb : NumOrd.eq (get A j j - ldltSum L D j j) (0 : ℝ) = false := by
+    cases hbb : NumOrd.eq (get A j j - ldltSum L D j j) (0 : ℝ) with
+    | false => rfl
+    | true => exact absurd ((RealModel.eq_eq _ _).mp hbb) (ne_of_gt hp)
+  have hex : ∃ s', ldltColumn A n j (L, D) = some s' := by
+    unfold ldltColumn
+    simp only [hb]
+    exact ⟨_, rfl⟩
+  obtain ⟨⟨L', D'⟩, h⟩ := hex
+  exact ⟨(L', D'), h, ldltColumn_inv hinv hj h⟩
+
+/-- **LDLᵀ is present for every positive definite input.** -/
+theorem ldlt_present_aux {A : Matrix ℝ} (hsq : A.rows = A.columns)
+    (hPD : (toMat A.rows A.rows A).PosDef) : ∃ L D, ldlt A = some (L, D) := by
+  unfold ldlt
+  rw [if_neg (by simpa using hsq), ← hsq]
+  have h0 : LdltInv A.rows A (fill A.rows A.rows (0 : ℝ)) (fill A.rows A.rows (0 : ℝ)) 0 0 0 := by
+    refine ⟨shaped_fill _ _ _, shaped_fill _ _ _, fun a b ha hb _ => get_fill _ _ _ _ _ ha hb,
+      fun a b ha hb _ => get_fill _ _ _ _ _ ha hb, fun b hb => by omega, ?_⟩
+    rintro a b _ ⟨_, h2⟩; omega
+  obtain ⟨⟨L, D⟩, h1, _⟩ := forRange_progress
+    (fun j (s : Matrix ℝ × Matrix ℝ) => LdltInv A.rows A s.1 s.2 j 0 j)
+    (fun j s => ldltColumn A A.rows j s) A.rows
+    (fill A.rows A.rows (0 : ℝ), fill A.rows A.rows (0 : ℝ)) h0
+    (fun j t hj hP => ldltColumn_present (L := t.1) (D := t.2) hPD hP hj)
+  exact ⟨L, D, h1⟩
+
+end pivots
+
 end EasyMl.Decomp
